@@ -41,6 +41,12 @@ def build(quiet=True):
             if p.returncode != 0:
                 sys.stderr.write(p.stdout)
                 raise ToolError("cargo build failed: " + " ".join(args))
+        # the helper binary is hard-linked into test repositories: make sure nothing that ran there changed its mode
+        for b in ("monorail", "vhelper", "vinproc"):
+            try:
+                os.chmod(os.path.join(BIN, b), 0o755)
+            except OSError:
+                pass
         if not quiet:
             log("build ok in %.1fs" % (time.time() - t0))
     return {"monorail": os.path.join(BIN, "monorail"), "vhelper": os.path.join(BIN, "vhelper"),
